@@ -322,8 +322,9 @@ namespace
 
     // Both cooked and raw DIE's have parents (unless they don't, in
     // which case we are already at root).  But for cooked DIE's,
-    // when the parent is partial unit root, we need to traverse
-    // further along the import chain.
+    // when the parent is the root of an imported unit (partial or,
+    // as DW_AT_import allows as well, a full compile unit), we need
+    // to traverse further along the import chain.
     Dwarf_Die par_die;
     do
       if (! get_parent (*a, par_die))
@@ -331,7 +332,8 @@ namespace
     while (d == doneness::cooked
 	   // Import another partial unit if possible, and keep
 	   // looking for the actual parent.
-	   && dwarf_tag (&par_die) == DW_TAG_partial_unit
+	   && (dwarf_tag (&par_die) == DW_TAG_partial_unit
+	       || dwarf_tag (&par_die) == DW_TAG_compile_unit)
 	   && a->get_import () != nullptr
 	   && (a = a->get_import ().get ()));
 
